@@ -18,6 +18,12 @@ Members == { <<"int">>, <<"float">>, <<"bool">>, <<"str">>, <<"none">>, <<"date"
              <<"dict", <<"str">>, <<"int">> >>, PT, <<"vtuple", <<"str">> >>, <<"frozenset", <<"str">> >> }
 Seqs(n) == { s \in [1..n -> Members] : \A i, j \in 1..n : i # j => s[i] # s[j] }
 Unions == { <<"union", s>> : s \in UNION { Seqs(n) : n \in 2..MaxMembers } }
+\* an enum whose class maps every unknown value to OTHER (_missing_): as a field type it accepts anything; a Literal that LISTS one
+\* of its members accepts that member's VALUE only
+KindE == <<"enum", "Kind", "Enum", << <<"CAT", S("cat")>>, <<"OTHER", S("other")>> >>, << <<"missing", "OTHER">> >> >>
+MissingLits == { <<"literal", << <<"lenum", KindE, "OTHER">> >> >>, <<"literal", << <<"lenum", KindE, "CAT">>, S("none") >> >>,
+                 <<"union", << <<"literal", << <<"lenum", KindE, "OTHER">> >> >>, <<"int">> >> >>, KindE }
+MissingInputs == { S("cat"), S("other"), S("zebra"), S("CAT"), S("none"), I(3), None }
 Literals == { <<"literal", << I(1), S("a") >> >>, <<"literal", << S("1"), I(1), B(TRUE) >> >>,
               <<"literal", << None, I(0) >> >>, <<"literal", << <<"bytes", <<1, 2>> >>, S("x") >> >>,
               <<"literal", << <<"lenum", Color, "RED">>, S("g") >> >>,
@@ -45,7 +51,7 @@ RaiseUnions == { <<"union", <<m, <<"str">> >> >> : m \in RaiseMembers } \cup { <
                \cup { <<"union", <<m, <<"list", <<"int">> >> >> >> : m \in RaiseMembers }
                \cup { <<"union", << <<"int">>, <<"str">> >> >>, <<"union", << <<"int">>, <<"text", "decimal">>, <<"str">> >> >> }
 RaiseInputs == { S("garbage"), S("1/0"), S("("), S("1.5"), S("1/3"), S("a+"), <<"fspecial", "inf">>, S("NaN"), S("Infinity"), L(<<I(1)>>) }
-Types == Unions \cup Literals \cup TVarTypes \cup RaiseUnions
+Types == Unions \cup Literals \cup TVarTypes \cup RaiseUnions \cup MissingLits
 AllTypes == Types \cup { Holder(t) : t \in Types } \cup PermShapes \cup { Holder(t) : t \in { q \in PermShapes : q[1] = "tuple" } }
 
 JScalars == { I(0), I(1), I(-7), <<"float", 15, -1>>, <<"float", 1, 0>>, B(TRUE), B(FALSE), None,
@@ -59,6 +65,8 @@ Init == T = <<"start">> /\ v = <<"nov">> /\ kind = "start"
 Next == \/ kind = "start" /\ T' \in AllTypes /\ v' = v /\ kind' = "type"
         \/ kind = "type" /\ T' = T /\ v' \in Range(Smp(T)) /\ kind' = "value"
         \/ kind = "type" /\ T' = T /\ v' \in (IF T \in PermShapes THEN J \cup PermInputs ELSE J) /\ kind' = "input"
+        \/ kind = "type" /\ (T \in MissingLits \/ (T[1] = "dc" /\ T[2] = "H" /\ FType(DcFields(T)[1]) \in MissingLits)) /\ T' = T
+           /\ v' \in (IF T[1] = "dc" THEN { Dct(<< <<S("f"), x>> >>) : x \in MissingInputs } ELSE MissingInputs) /\ kind' = "input"
         \/ kind = "type" /\ (T \in RaiseUnions \/ (T[1] = "dc" /\ T[2] = "H" /\ FType(DcFields(T)[1]) \in RaiseUnions)) /\ T' = T
            /\ v' \in (IF T[1] = "dc" THEN { Dct(<< <<S("f"), x>> >>) : x \in RaiseInputs } ELSE RaiseInputs) /\ kind' = "input"
         \/ kind = "type" /\ T[1] = "dc" /\ T[2] = "H" /\ FType(DcFields(T)[1]) \in PermShapes /\ T' = T
